@@ -194,7 +194,7 @@ theorem stage_zero (hc : ValidP.Core a) (hok : GroupsOk groups a.ndim) :
     obtain ⟨_, hget⟩ := fused_getM hv hok hB h2
     have hshape := blockShape?_length (hv.blk sb hsb).2.1
     have hshl : sb.2.shape.length = a.ndim := by rw [hshape.2]; exact (hv.blk sb hsb).1
-    have := hget sb.1 offs (hv.blk sb hsb).1 (by rw [inBox_length ho, hshl]) h4 h5
+    have := (hget sb.1 offs (hv.blk sb hsb).1 (by rw [inBox_length ho, hshl]) h4 h5).1
     rw [alookup_of_mem_nodup hv.nodup hsb] at this
     simp only [IM, partG_zero]
     exact this
